@@ -614,6 +614,39 @@ impl Space {
                         }
                     }
                 }
+                // the same sequence with every non-empty subset of its operands written as literals of
+                // the bound values: the value must not depend on which operands the compiler can see
+                if !has_postfix {
+                    let env: Vec<(&str, V)> = vec![("a", V::Int(7)), ("b", V::Int(3)), ("c", V::Int(2)), ("d", V::Int(5)), ("e", V::Int(11))];
+                    if let Some(want) = reval(rt, &env) {
+                        let positions: Vec<usize> = toks.iter().enumerate().filter(|(_, t)| NAMES.contains(&t.as_str())).map(|(i, _)| i).collect();
+                        for mask in 1u32..(1 << positions.len()) {
+                            let mut lt = toks.clone();
+                            for (bit, p) in positions.iter().enumerate() {
+                                if mask & (1 << bit) != 0 {
+                                    let v = &env.iter().find(|(n, _)| *n == lt[*p]).unwrap().1;
+                                    lt[*p] = v.lit().unwrap();
+                                }
+                            }
+                            let src = join(&lt, 1);
+                            let got = real::eval(&src, &env);
+                            acc.eval();
+                            let ok = match (&want, &got) {
+                                (RV::Fail, Outcome::Fail(..)) => true,
+                                (RV::Val(v), o) => matches!(o.value(), Some(g) if g.same(v)),
+                                _ => false,
+                            };
+                            if !ok {
+                                acc.violation(
+                                    &format!("[{}] evaluation-differs-from-reference-tree with literal operands", root),
+                                    json!({"src": src, "bindings": "a=7 b=3 c=2 d=5 e=11", "reference_tree": rt.show()}),
+                                    format!("{:?}", want),
+                                    got.show(),
+                                );
+                            }
+                        }
+                    }
+                }
                 if acc.wants_sample() {
                     acc.sample(json!({"tokens": flat, "reference_tree": rt.show(), "fully_parenthesised": join(&full, 1)}));
                 }
@@ -661,7 +694,7 @@ pub fn run(t: Tier) -> i32 {
     let mut rep = Report::new(ID, t, "exploration");
     let sp = Space::new(t);
     rep.rule = format!(
-        "sequences: every flat sequence operand (op operand)^k for k <= {} over the 14 binary operators and `?`/`:` (16 symbols), plain, with every non-empty decoration (5 prefix runs: none ! !! - -- x 6 postfix chains: none .f [i] (y) .f(y)[i] (y,z)) on one operand at a time, and for k <= {} on all operands at once; each sequence is parsed by an independent table-driven reference parser (levels: ?: right-nesting in the else branch, ||, &&, relations incl. in, + -, * / %, prefix runs, postfix chains; equal levels group left) and rendered 9 ways (as is / every operator node parenthesised / doubly parenthesised x no blanks / single blanks / newline-tab runs); the canonical form of Program::ast() must equal the reference tree in every rendering and the value under an int and a bool environment must equal the reference evaluation of the reference tree; sequences the grammar gives no structure (unbalanced or nested ?: without parentheses) must be rejected. Non-trivial = every sequence; distinct by index",
+        "sequences: every flat sequence operand (op operand)^k for k <= {} over the 14 binary operators and `?`/`:` (16 symbols), plain, with every non-empty decoration (5 prefix runs: none ! !! - -- x 6 postfix chains: none .f [i] (y) .f(y)[i] (y,z)) on one operand at a time, and for k <= {} on all operands at once; each sequence is parsed by an independent table-driven reference parser (levels: ?: right-nesting in the else branch, ||, &&, relations incl. in, + -, * / %, prefix runs, postfix chains; equal levels group left) and rendered 9 ways (as is / every operator node parenthesised / doubly parenthesised x no blanks / single blanks / newline-tab runs); the canonical form of Program::ast() must equal the reference tree in every rendering and the value under an int and a bool environment - also with every subset of the operands written as literals - must equal the reference evaluation of the reference tree; sequences the grammar gives no structure (unbalanced or nested ?: without parentheses) must be rejected. Non-trivial = every sequence; distinct by index",
         sp.maxk, sp.full_deco_k
     );
     rep.run_family(Family::new("sequences", sp.size(), |i, a| sp.run(i, a)));
